@@ -243,7 +243,9 @@ func confirms(v *ViolationRec, o replayOutcome) bool {
 	case "alloc":
 		return strings.HasPrefix(o.Result, "alloc") || o.Result == "crash" || (strings.HasPrefix(o.Result, "panic") && strings.Contains(o.Result, "out of range")) || strings.Contains(o.Output, "out of memory")
 	case "blocked":
-		return o.Result == "timeout" || o.Result == "deadlock"
+		// a hang: natively a watchdog time-out, a runtime deadlock report, or the
+		// harness's own lateness assertion once the native peer gives up
+		return o.Result == "timeout" || o.Result == "deadlock" || strings.HasPrefix(o.Result, "assert-fail")
 	}
 	return false
 }
